@@ -14,6 +14,7 @@ A(v) == <<v[1], v[2]>>
 TInit == Init /\ tid \in 1..NT /\ l = 2 /\ fails = {}
 Act(e) == CASE e.op = "setShape" -> SetShape(e.kind, A(e.ar), e.inst)
             [] e.op = "setAr" -> SetAr(A(e.ar))
+            [] e.op = "swapDesc" -> SwapDescription(e.kind)
             [] e.op = "query" -> Query
 Mismatch(e) ==
        (IF kind' # e.obs.kind THEN {"shape:description-in-force"} ELSE {})
@@ -21,6 +22,7 @@ Mismatch(e) ==
   \cup (IF finder' # e.obs.finder THEN {"shape:finder-matches-aspect-ratio-mode"} ELSE {})
   \cup (IF fired' # e.obs.fired THEN {"shape:callbacks-fire-once-per-shape-change"} ELSE {})
   \cup (IF e.op = "query" /\ last'.eff # A(e.obs.eff) THEN {"C15:aspect-ratio-below-1-treated-as-1"} ELSE {})
+  \cup (IF e.op = "query" /\ ~e.obs.rootok THEN {"C15:critical-radius-search-returns-a-root-of-the-description-in-force"} ELSE {})
 TStep == /\ l <= Len(Tr) /\ Ev.e = "op" /\ Act(Ev) /\ UNCHANGED nops
          /\ fails' = fails \cup {<<c, l, Ev.op>> : c \in {c \in Mismatch(Ev) : \A x \in fails : x[1] # c}}
          /\ l' = l + 1 /\ tid' = tid
